@@ -337,11 +337,19 @@ def run_als(case, ctx):
     # (the library works in double precision: predictions of size |pred| are
     # known to eps |pred|, which moves the objective by up to
     # eps * sum w (|pred| + |y|)^2 - matters for large, almost fitted data)
-    pr_ = np.abs(np.asarray(ref.dense_ld(traj[-1] if traj else Y0),
-        dtype=float)[tuple(I.T)]) + np.abs(y)
-    jtol = 1e3 * EPS * float(np.sum(pr_ * pr_ if w is None else w * pr_ * pr_))
+    # A prediction is a sum over the rank indices; with cores that carry large
+    # components in numerically singular directions (tiny regularisation) the
+    # terms cancel, and the library - working in doubles - knows a prediction
+    # only to eps * (sum of the moduli of the terms) = eps * absbound.
+    # (this model replaced eps * |prediction| after the thorough tier, seed 5,
+    # showed a relative increase of 2.5e-10 in the family "large data, tiny
+    # regularisation" where the moduli are ~30 times the predictions)
+    def jt_(T_):
+        a_ = np.asarray(ref.absbound(T_), dtype=float)[tuple(I.T)] + np.abs(y)
+        return 1e3 * EPS * float(np.sum(a_ * a_ if w is None else w * a_ * a_))
+    jts = [jt_(T_) for T_ in [Y0] + traj]
     bad = [(s, a, b) for s, (a, b) in enumerate(zip(js, js[1:]))
-        if not b <= a * (1 + 1e-10) + jtol]
+        if not b <= a * (1 + 1e-10) + max(jts[s], jts[s + 1])]
     ctx.check('descent', not bad, f'objective increased between sweeps: {bad[:2]}',
         trajectory=js)
     # (c) independent optimality of the last-updated core (core 1)
